@@ -132,7 +132,7 @@ def run(rep, tier, seed, replay=None):
                 viol.append("the queue crashed: " + res.result)
             for l in res.trace:
                 t = l.split()
-                if t[0] == "maxlat_us" and (int(w[6]) >= 1500 or int(w[6]) == 1) and int(t[1]) >= 50000:
+                if t[0] == "maxlat_us" and ((int(w[6]) >= 1500 and int(t[1]) >= 50000) or (int(w[6]) == 1 and int(t[1]) >= 90000)):
                     viol.append("a consumer blocked in recv() stayed asleep %s us although an element was available (lost notification, "
                                 "rescued only by the 100 ms re-check)" % t[1])
             if res.reject:
@@ -151,7 +151,8 @@ def run(rep, tier, seed, replay=None):
                 # a latency can also be an OS scheduling hiccup of the machine: it counts only if the same program shows it again
                 again = hsim.run_programs(cb, [p] * 3, model="ringlog", timeout=3000)
                 rep.cov["latency_confirm_runs"] = rep.cov.get("latency_confirm_runs", 0) + 3
-                if not any(int(l.split()[1]) >= 50000 for r2 in again for l in r2.trace if l.startswith("maxlat_us")):
+                thr = 90000 if int(w[6]) == 1 else 50000        # aimed pushes: a lost notification costs the whole 100 ms re-check period
+                if sum(1 for r2 in again if any(int(l.split()[1]) >= thr for l in r2.trace if l.startswith("maxlat_us"))) < 2:
                     rep.cov["latency_not_reproduced"] = rep.cov.get("latency_not_reproduced", 0) + 1
                     unlisted = []
             if unlisted and not reported:
@@ -169,6 +170,6 @@ def run(rep, tier, seed, replay=None):
                        "B: real concurrent runs - 1..4 producer and 1..4 consumer OS threads pushing/popping or sending/receiving 500..20000 tagged "
                        "elements each through queues of capacity 2..64, and RingChannel with consumers blocked in recv() on their own vCPUs and "
                        "paced producers, or producers that aim every push at the moment a consumer using recv(0,0) decides to sleep (per-element latency "
-                       "measured; a latency >= 50 ms must reproduce in a re-run to count) - every element received is checked by the Lean acceptor (sent, not "
+                       "measured; a latency >= 50 ms - 90 ms for the aimed pushes - must show again in 2 of 3 re-runs to count: a loaded machine produces isolated delays) - every element received is checked by the Lean acceptor (sent, not "
                        "received before, later than what that consumer already has from that producer; all received in the end; capacity)")
     rep.sample(seqs[-1] if seqs else (progs[-1] if progs else []))
